@@ -83,7 +83,7 @@ LEVEL_TEXT = ("Machine-checked proof (Coq) about executable models of Deficiency
               "builder and the undirected-input conversion are proved to refine the label-level model. The models are compared with the Python code "
               "(complex list, arcs, classes, all integers and flags, class deficiencies, result / error code and every stored field after every call, raw attributed "
               "graphs) on every run over an exhaustive small scope, random, textbook, large and adversarial networks; numpy's float ranks are compared with the certified exact ranks per input.")
-LEVEL_NOTE = ("Universal: all 51 model theorems and checker soundness. Per input: float ranks vs certified ranks; networkx component routines vs "
+LEVEL_NOTE = ("Universal: all 52 model theorems and checker soundness. Per input: float ranks vs certified ranks; networkx component routines vs "
               "the model's closures; float part of nondegeneracy_test (oracle inputs). Trusted: Coq kernel, MathComp, models + encoders. "
               "networkx/numpy results are compared, not trusted.")
 TECHNIQUE = ("Coq proof about Gallina models (stdlib lists: walk invariant, lib/Reach saturation, API state-machine invariant, identifier-level refinement; MathComp: rank of Y*Ia, kernel of the incidence "
